@@ -215,6 +215,12 @@ func init() {
 			{Name: "passing-tests-invariance", Count: n(30000, 700000), Run: func(c *core.Ctx, idx int) {
 				esc := c.R.Intn(2) == 0
 				prof := spelled(esc)
+				if idx%2 == 0 {
+					// strings and names spelled as the encoder spells them, but insignificant
+					// whitespace between the tokens (the output is compact either way)
+					prof = prof.With(func(p *gen.Profile) { p.WS = 30 })
+					c.Count("passing-tests:documents-with-whitespace")
+				}
 				o := V5Opts{NegIdx: true, EscapeHTML: esc}
 				cfg := &SeqCfg{Prof: prof, MinOps: 0, MaxOps: 6, MissRate: 0, RootOK: true, Kinds: []string{"add", "remove", "replace", "move", "copy"}}
 				base := GenSeq(c.R, cfg, o.Ref())
